@@ -118,6 +118,13 @@ def gen_cases(tier, seed):
         tgt = [[([rng.randint(-3, 3), 0] if inten else [rng.randint(-3, 3), rng.randint(-3, 3)]) for _ in range(t[1])] for _ in range(t[0])]
         add({'k': 'insert', 'f': mkfield(rng, s, o), 'tsh': list(t), 't': tgt,
              'weight': rng.choice((1, 1, 2, -3)), 'intensity': inten})
+    # the target covered exactly (same shape, same origin), and off by one sample either way: every weight, both kinds
+    for sh in sorted(set(shapes) | {(3, 3), (4, 5), (1, 1), (2, 2)}):
+        for t in (sh, (sh[0] + 1, sh[1]), (sh[0], max(1, sh[1] - 1))):
+            for w in (2, -3, 1):
+                for inten in (False, True):
+                    tgt = [[([rng.randint(-3, 3), 0] if inten else [rng.randint(-3, 3), rng.randint(-3, 3)]) for _ in range(t[1])] for _ in range(t[0])]
+                    add({'k': 'insert', 'f': mkfield(rng, sh, (0, 0)), 'tsh': list(t), 't': tgt, 'weight': w, 'intensity': inten})
     # ---- extent queries -----------------------------------------------------------------------
     allext = [(sa, oa, sb, ob) for sa in shapes + [(1, 1), (4, 5)] for oa in [(0, 0), (-5, 3), (2, -1), (-7, -7)]
               for sb in shapes + [(1, 1), (5, 4)] for ob in offs_b]
